@@ -39,4 +39,177 @@ theorem shiftRows_cancel (δ₁ δ₂ : V3 ℝ) (l : Arr ℝ) (hx : δ₁.x + δ
 
 @[simp] theorem l3v_v3l (c : V3 ℝ) : l3v (v3l c) = c := rfl
 
+/-! ## observables under the primitives -/
+section obs
+variable {α : Type} [Scalar α]
+
+theorem centroidOf_observe (M : Meas α) (s : St α) :
+    Spec.centroidOf M s.cls (observe s) = pubCentroid M s := by
+  unfold Spec.centroidOf pubCentroid observe
+  cases s.cls.kind <;> rfl
+
+omit [Scalar α] in
+theorem observe_alloc (s : St α) (a : Arr α) (hw : Spec.WF s) : observe (s.alloc a) = observe s := by
+  unfold observe
+  rw [show (s.alloc a).fVerts = s.fVerts from rfl, show (s.alloc a).fNormal = s.fNormal from rfl,
+    show (s.alloc a).fCen = s.fCen from rfl, show (s.alloc a).fEqs = s.fEqs from rfl,
+    show (s.alloc a).fSeqs = s.fSeqs from rfl,
+    St.get_alloc_of_lt _ _ _ hw.verts, St.get_alloc_of_lt _ _ _ hw.normal.1,
+    St.get_alloc_of_lt _ _ _ hw.cen.1, St.get_alloc_of_lt _ _ _ hw.eqs.1, St.get_alloc_of_lt _ _ _ hw.seqs.1]
+  rfl
+
+omit [Scalar α] in
+/-- writing an array that is no attribute -/
+theorem observe_write (s : St α) (k : Id) (a : Arr α) (h1 : s.fVerts ≠ k) (h2 : s.fNormal ≠ k)
+    (h3 : s.fCen ≠ k) (h4 : s.fEqs ≠ k) (h5 : s.fSeqs ≠ k) : observe (s.write k a) = observe s := by
+  unfold observe
+  rw [show (s.write k a).fVerts = s.fVerts from rfl, show (s.write k a).fNormal = s.fNormal from rfl,
+    show (s.write k a).fCen = s.fCen from rfl, show (s.write k a).fEqs = s.fEqs from rfl,
+    show (s.write k a).fSeqs = s.fSeqs from rfl,
+    St.get_write_of_ne _ _ _ _ h1, St.get_write_of_ne _ _ _ _ h2, St.get_write_of_ne _ _ _ _ h3,
+    St.get_write_of_ne _ _ _ _ h4, St.get_write_of_ne _ _ _ _ h5]
+  rfl
+
+omit [Scalar α] in
+/-- in-place write of the vertex array -/
+theorem observe_writeVerts (s : St α) (a : Arr α) (hw : Spec.WF s) :
+    observe (s.write s.fVerts a) = { observe s with verts := a } := by
+  unfold observe
+  rw [show (s.write s.fVerts a).fVerts = s.fVerts from rfl, show (s.write s.fVerts a).fNormal = s.fNormal from rfl,
+    show (s.write s.fVerts a).fCen = s.fCen from rfl, show (s.write s.fVerts a).fEqs = s.fEqs from rfl,
+    show (s.write s.fVerts a).fSeqs = s.fSeqs from rfl,
+    St.get_write_self, St.get_write_of_ne _ _ _ _ hw.normal.2, St.get_write_of_ne _ _ _ _ hw.cen.2,
+    St.get_write_of_ne _ _ _ _ hw.eqs.2, St.get_write_of_ne _ _ _ _ hw.seqs.2]
+  rfl
+
+omit [Scalar α] in
+theorem WF.writeVerts {s : St α} (hw : Spec.WF s) (a : Arr α) : Spec.WF (s.write s.fVerts a) :=
+  WF.of_frame hw (Frame.writeVerts s a)
+
+omit [Scalar α] in
+theorem observe_allocEqs (s : St α) (a : Arr α) (hw : Spec.WF s) :
+    observe ((s.alloc a).setEqs s.next) = { observe s with eqs := a } := by
+  have h := observe_alloc s a hw
+  unfold observe at h ⊢
+  simp only [Obs.mk.injEq] at h
+  obtain ⟨h1, h2, h3, h4, h5, h6, h7⟩ := h
+  show Obs.mk _ _ _ _ _ _ _ = Obs.mk _ _ _ _ _ _ _
+  simp only [St.get_setEqs] at *
+  rw [show ((s.alloc a).setEqs s.next).fVerts = (s.alloc a).fVerts from rfl,
+    show ((s.alloc a).setEqs s.next).fNormal = (s.alloc a).fNormal from rfl,
+    show ((s.alloc a).setEqs s.next).fCen = (s.alloc a).fCen from rfl,
+    show ((s.alloc a).setEqs s.next).fSeqs = (s.alloc a).fSeqs from rfl,
+    show ((s.alloc a).setEqs s.next).fEqs = s.next from rfl, h1, h2, h3, h5, St.get_alloc_self]
+  rfl
+
+omit [Scalar α] in
+theorem observe_allocSeqs (s : St α) (a : Arr α) (hw : Spec.WF s) :
+    observe ((s.alloc a).setSeqs s.next) = { observe s with seqs := a } := by
+  have h := observe_alloc s a hw
+  unfold observe at h ⊢
+  simp only [Obs.mk.injEq] at h
+  obtain ⟨h1, h2, h3, h4, h5, h6, h7⟩ := h
+  show Obs.mk _ _ _ _ _ _ _ = Obs.mk _ _ _ _ _ _ _
+  simp only [St.get_setSeqs] at *
+  rw [show ((s.alloc a).setSeqs s.next).fVerts = (s.alloc a).fVerts from rfl,
+    show ((s.alloc a).setSeqs s.next).fNormal = (s.alloc a).fNormal from rfl,
+    show ((s.alloc a).setSeqs s.next).fCen = (s.alloc a).fCen from rfl,
+    show ((s.alloc a).setSeqs s.next).fEqs = (s.alloc a).fEqs from rfl,
+    show ((s.alloc a).setSeqs s.next).fSeqs = s.next from rfl, h1, h2, h3, h4, St.get_alloc_self]
+  rfl
+
+omit [Scalar α] in
+theorem observe_allocCen (s : St α) (a : Arr α) (hw : Spec.WF s) :
+    observe ((s.alloc a).setCen s.next) = { observe s with cen := a } := by
+  have h := observe_alloc s a hw
+  unfold observe at h ⊢
+  simp only [Obs.mk.injEq] at h
+  obtain ⟨h1, h2, h3, h4, h5, h6, h7⟩ := h
+  show Obs.mk _ _ _ _ _ _ _ = Obs.mk _ _ _ _ _ _ _
+  simp only [St.get_setCen] at *
+  rw [show ((s.alloc a).setCen s.next).fVerts = (s.alloc a).fVerts from rfl,
+    show ((s.alloc a).setCen s.next).fNormal = (s.alloc a).fNormal from rfl,
+    show ((s.alloc a).setCen s.next).fSeqs = (s.alloc a).fSeqs from rfl,
+    show ((s.alloc a).setCen s.next).fEqs = (s.alloc a).fEqs from rfl,
+    show ((s.alloc a).setCen s.next).fCen = s.next from rfl, h1, h2, h4, h5, St.get_alloc_self]
+  rfl
+
+omit [Scalar α] in
+theorem observe_allocNormal (s : St α) (a : Arr α) (hw : Spec.WF s) :
+    observe ((s.alloc a).setNormal s.next) = { observe s with normal := a } := by
+  have h := observe_alloc s a hw
+  unfold observe at h ⊢
+  simp only [Obs.mk.injEq] at h
+  obtain ⟨h1, h2, h3, h4, h5, h6, h7⟩ := h
+  show Obs.mk _ _ _ _ _ _ _ = Obs.mk _ _ _ _ _ _ _
+  simp only [St.get_setNormal] at *
+  rw [show ((s.alloc a).setNormal s.next).fVerts = (s.alloc a).fVerts from rfl,
+    show ((s.alloc a).setNormal s.next).fCen = (s.alloc a).fCen from rfl,
+    show ((s.alloc a).setNormal s.next).fSeqs = (s.alloc a).fSeqs from rfl,
+    show ((s.alloc a).setNormal s.next).fEqs = (s.alloc a).fEqs from rfl,
+    show ((s.alloc a).setNormal s.next).fNormal = s.next from rfl, h1, h3, h4, h5, St.get_alloc_self]
+  rfl
+
+/-- **the centroid setter on the heap computes `Spec.moved` on the observables** -/
+theorem observe_setCentroid (M : Meas α) (s : St α) (v : V3 α) (hw : Spec.WF s) :
+    observe (setCentroid M s v) = Spec.moved M s.cls (observe s) v := by
+  have hc := centroidOf_observe M s
+  unfold setCentroid Spec.moved
+  cases hk : s.cls.kind with
+  | curved => simp only []; rw [observe_allocCen s _ hw]
+  | planar => simp only []; rw [observe_writeVerts s _ hw, hc]; rfl
+  | poly =>
+    simp only []
+    have hw1 := WF.writeVerts hw (shiftRows (v - pubCentroid M s) (s.get s.fVerts))
+    rw [observe_allocEqs _ _ hw1, observe_writeVerts s _ hw, hc]
+    show _ = Obs.mk _ _ _ _ _ _ _
+    simp only [St.get_write_self, show (s.write s.fVerts (shiftRows (v - pubCentroid M s) (s.get s.fVerts))).fVerts
+      = s.fVerts from rfl]
+    rfl
+  | convex =>
+    simp only []
+    have hw1 := WF.writeVerts hw (shiftRows (v - pubCentroid M s) (s.get s.fVerts))
+    have hw2 := WF.of_frame hw1 (Frame.allocEqs _ (M.eqs ((s.write s.fVerts (shiftRows (v - pubCentroid M s)
+      (s.get s.fVerts))).get (s.write s.fVerts (shiftRows (v - pubCentroid M s) (s.get s.fVerts))).fVerts)))
+    have hw3 := WF.of_frame hw2 (Frame.allocSeqs _ (M.seqs ((((s.write s.fVerts (shiftRows (v - pubCentroid M s)
+      (s.get s.fVerts))).alloc (M.eqs ((s.write s.fVerts (shiftRows (v - pubCentroid M s)
+      (s.get s.fVerts))).get (s.write s.fVerts (shiftRows (v - pubCentroid M s) (s.get s.fVerts))).fVerts))).setEqs
+      (s.write s.fVerts (shiftRows (v - pubCentroid M s) (s.get s.fVerts))).next).get
+      (((s.write s.fVerts (shiftRows (v - pubCentroid M s)
+      (s.get s.fVerts))).alloc (M.eqs ((s.write s.fVerts (shiftRows (v - pubCentroid M s)
+      (s.get s.fVerts))).get (s.write s.fVerts (shiftRows (v - pubCentroid M s) (s.get s.fVerts))).fVerts))).setEqs
+      (s.write s.fVerts (shiftRows (v - pubCentroid M s) (s.get s.fVerts))).next).fVerts)))
+    have g1 : ∀ t : St α, Spec.WF t → ∀ a, ((t.alloc a).setEqs t.next).get ((t.alloc a).setEqs t.next).fVerts
+        = t.get t.fVerts := fun t ht a => St.get_alloc_of_lt _ _ _ ht.verts
+    have g2 : ∀ t : St α, Spec.WF t → ∀ a, ((t.alloc a).setSeqs t.next).get ((t.alloc a).setSeqs t.next).fVerts
+        = t.get t.fVerts := fun t ht a => St.get_alloc_of_lt _ _ _ ht.verts
+    have g3 : ∀ t : St α, Spec.WF t → ∀ a, ((t.alloc a).setCen t.next).get ((t.alloc a).setCen t.next).fVerts
+        = t.get t.fVerts := fun t ht a => St.get_alloc_of_lt _ _ _ ht.verts
+    show observe (St.setVolume _ _) = _
+    unfold St.setVolume
+    show Obs.mk _ _ _ _ _ _ _ = Obs.mk _ _ _ _ _ _ _
+    have e := observe_allocCen _ (v3l (M.cenV (((((s.write s.fVerts (shiftRows (v - pubCentroid M s)
+      (s.get s.fVerts))).alloc (M.eqs ((s.write s.fVerts (shiftRows (v - pubCentroid M s)
+      (s.get s.fVerts))).get (s.write s.fVerts (shiftRows (v - pubCentroid M s) (s.get s.fVerts))).fVerts))).setEqs
+      (s.write s.fVerts (shiftRows (v - pubCentroid M s) (s.get s.fVerts))).next).alloc _).setSeqs _).volume
+      (((((s.write s.fVerts (shiftRows (v - pubCentroid M s)
+      (s.get s.fVerts))).alloc (M.eqs ((s.write s.fVerts (shiftRows (v - pubCentroid M s)
+      (s.get s.fVerts))).get (s.write s.fVerts (shiftRows (v - pubCentroid M s) (s.get s.fVerts))).fVerts))).setEqs
+      (s.write s.fVerts (shiftRows (v - pubCentroid M s) (s.get s.fVerts))).next).alloc _).setSeqs _).get _))) hw3
+    rw [observe_allocSeqs _ _ hw2, observe_allocEqs _ _ hw1, observe_writeVerts s _ hw] at e
+    unfold observe at e
+    simp only [Obs.mk.injEq] at e
+    obtain ⟨e1, e2, e3, e4, e5, e6, e7⟩ := e
+    simp only [Obs.mk.injEq]
+    rw [g2 _ hw2, g1 _ hw1, St.get_write_self] at e3 e5
+    rw [hc]
+    refine ⟨?_, e2, ?_, ?_, ?_, ?_, e7⟩
+    · rw [e1]
+    · rw [e3]; rfl
+    · rw [e4, St.get_write_self]; rfl
+    · rw [e5]
+    · rw [g3 _ hw3, g2 _ hw2, g1 _ hw1, St.get_write_self]
+
+end obs
+
 end C16
